@@ -48,6 +48,7 @@ type FakeReg struct {
 	srvs      []*http.Server
 	// crash hooks (C12): called with the lock released
 	OnRequest func(kind string, n int)
+	OnPath    func(kind, path string) // may block: holds the request (C03 overlapping pulls)
 	OnBody    func(kind string, n int, total int) (cutAt int) // -1: no cut; else call Cut after writing cutAt bytes
 	Cut       func()
 	// push recording
@@ -140,10 +141,13 @@ func (f *FakeReg) next(kind string, r *http.Request) (int, *Fault) {
 		rec.Fault = hit.Act
 	}
 	f.Log = append(f.Log, rec)
-	hook := f.OnRequest
+	hook, onPath := f.OnRequest, f.OnPath
 	f.mu.Unlock()
 	if hook != nil {
 		hook(kind, n)
+	}
+	if onPath != nil {
+		onPath(kind, r.URL.Path)
 	}
 	return n, hit
 }
